@@ -140,6 +140,10 @@ def rule_d(repo, chk):
     txt = [norm(s) for s in f.body]
     ok = any('super()._filter(names)' in t for t in txt) and any('self._is_name_reachable(n)' in t for t in txt) and any('self._check_flows(names)' in t for t in txt)
     chk.ob('C03.d', ok, f, 'ParserTreeFilter._filter chains the position filter, the scope filter and the flow check')
+    # MUST: no answer leaves _filter without having gone through each of the three steps
+    for callee in ('_filter', '_is_name_reachable', '_check_flows'):
+        w = must_pass(f, lambda n, callee=callee: node_has(n, lambda x: isinstance(x, ast.Call) and call_name(x) == callee))
+        chk.ob('C03.d', w is None, f, 'every return of ParserTreeFilter._filter has passed %s()' % callee, w or '')
     comp = [x for x in ast.walk(f) if isinstance(x, ast.comprehension)]
     ok = len(comp) == 1 and len(comp[0].ifs) == 1 and norm(comp[0].ifs[0]) == 'self._is_name_reachable(n)'
     chk.ob('C03.d', ok, f, 'a name is kept only if _is_name_reachable(n)')
